@@ -2,13 +2,18 @@
 //! real `SearchInstance`, together with the boring reference arithmetic for the same configuration.
 use crate::refmodel::units as ru;
 use crate::world::net::Net;
+use routee_compass::app::compass::config::cost_model::cost_model_service::CostModelService;
+use routee_compass::app::search::search_app::SearchApp;
+use routee_compass_core::algorithm::search::search_algorithm::SearchAlgorithm;
 use routee_compass_core::algorithm::search::search_instance::SearchInstance;
 use routee_compass_core::model::access::access_model::AccessModel;
+use routee_compass_core::model::access::access_model_service::AccessModelService;
 use routee_compass_core::model::access::default::no_access_model::NoAccessModel;
 use routee_compass_core::model::access::default::turn_delays::edge_heading::EdgeHeading;
 use routee_compass_core::model::access::default::turn_delays::turn::Turn;
 use routee_compass_core::model::access::default::turn_delays::turn_delay_access_model::TurnDelayAccessModel;
 use routee_compass_core::model::access::default::turn_delays::turn_delay_access_model_engine::TurnDelayAccessModelEngine;
+use routee_compass_core::model::access::default::turn_delays::turn_delay_access_model_service::TurnDelayAccessModelService;
 use routee_compass_core::model::access::default::turn_delays::turn_delay_model::TurnDelayModel;
 use routee_compass_core::model::cost::cost_aggregation::CostAggregation;
 use routee_compass_core::model::cost::cost_model::CostModel;
@@ -16,25 +21,20 @@ use routee_compass_core::model::cost::network::network_cost_rate::NetworkCostRat
 use routee_compass_core::model::cost::vehicle::vehicle_cost_rate::VehicleCostRate;
 use routee_compass_core::model::frontier::default::no_restriction::NoRestriction;
 use routee_compass_core::model::frontier::frontier_model::FrontierModel;
+use routee_compass_core::model::frontier::frontier_model_service::FrontierModelService;
 use routee_compass_core::model::network::EdgeId;
 use routee_compass_core::model::state::state_feature::StateFeature;
 use routee_compass_core::model::state::state_model::StateModel;
 use routee_compass_core::model::termination::termination_model::TerminationModel;
 use routee_compass_core::model::traversal::default::distance_traversal_model::DistanceTraversalModel;
+use routee_compass_core::model::traversal::default::distance_traversal_service::DistanceTraversalService;
 use routee_compass_core::model::traversal::default::speed_traversal_engine::SpeedTraversalEngine;
 use routee_compass_core::model::traversal::default::speed_traversal_model::SpeedTraversalModel;
+use routee_compass_core::model::traversal::default::speed_traversal_service::SpeedLookupService;
 use routee_compass_core::model::traversal::traversal_model::TraversalModel;
+use routee_compass_core::model::traversal::traversal_model_service::TraversalModelService;
 use routee_compass_core::model::unit::*;
 use serde::{Deserialize, Serialize};
-use routee_compass::app::compass::config::cost_model::cost_model_service::CostModelService;
-use routee_compass::app::search::search_app::SearchApp;
-use routee_compass_core::algorithm::search::search_algorithm::SearchAlgorithm;
-use routee_compass_core::model::access::access_model_service::AccessModelService;
-use routee_compass_core::model::access::default::turn_delays::turn_delay_access_model_service::TurnDelayAccessModelService;
-use routee_compass_core::model::frontier::frontier_model_service::FrontierModelService;
-use routee_compass_core::model::traversal::default::distance_traversal_service::DistanceTraversalService;
-use routee_compass_core::model::traversal::default::speed_traversal_service::SpeedLookupService;
-use routee_compass_core::model::traversal::traversal_model_service::TraversalModelService;
 use std::collections::HashMap;
 use std::sync::Arc;
 use std::time::Duration;
@@ -75,8 +75,15 @@ impl Rate {
 
 #[derive(Clone, Debug, Serialize, Deserialize)]
 pub enum Trav {
-    Distance { model_unit: DistanceUnit },
-    Speed { speed_unit: SpeedUnit, dist_unit: DistanceUnit, time_unit: TimeUnit, speeds: Vec<f64> },
+    Distance {
+        model_unit: DistanceUnit,
+    },
+    Speed {
+        speed_unit: SpeedUnit,
+        dist_unit: DistanceUnit,
+        time_unit: TimeUnit,
+        speeds: Vec<f64>,
+    },
 }
 
 #[derive(Clone, Debug, Serialize, Deserialize, PartialEq)]
@@ -100,7 +107,11 @@ impl TurnCfg {
     }
     /// heading at the end of edge e
     pub fn end_heading(&self, e: usize) -> i16 {
-        if self.is_blank(e) { self.headings[e].0 } else { self.headings[e].1 }
+        if self.is_blank(e) {
+            self.headings[e].0
+        } else {
+            self.headings[e].1
+        }
     }
     pub fn real_headings(&self) -> Vec<EdgeHeading> {
         (0..self.headings.len())
@@ -108,7 +119,10 @@ impl TurnCfg {
                 let (a, d) = self.headings[e];
                 if self.is_blank(e) {
                     // no constructor leaves the departure heading out: through serde, the way a file row with an empty cell arrives
-                    serde_json::from_value(serde_json::json!({"arrival_heading": a, "departure_heading": null})).expect("harness: EdgeHeading without a departure heading")
+                    serde_json::from_value(
+                        serde_json::json!({"arrival_heading": a, "departure_heading": null}),
+                    )
+                    .expect("harness: EdgeHeading without a departure heading")
                 } else {
                     EdgeHeading::new(a, d)
                 }
@@ -135,15 +149,21 @@ impl Term {
             Term::Unlimited => Some(json!({"type": "iterations", "limit": u64::MAX / 4})),
             Term::Iterations(l) => Some(json!({"type": "iterations", "limit": l})),
             Term::Size(l) => Some(json!({"type": "solution_size", "limit": l})),
-            Term::RuntimeMs { limit_ms, frequency } => {
+            Term::RuntimeMs {
+                limit_ms,
+                frequency,
+            } => {
                 if limit_ms % 1000 != 0 {
                     return None;
                 }
                 let sec = limit_ms / 1000;
-                Some(json!({"type": "query_runtime", "limit": format!("{:02}:{:02}:{:02}", sec / 3600, (sec / 60) % 60, sec % 60), "frequency": frequency}))
+                Some(
+                    json!({"type": "query_runtime", "limit": format!("{:02}:{:02}:{:02}", sec / 3600, (sec / 60) % 60, sec % 60), "frequency": frequency}),
+                )
             }
             Term::Combined(v) => {
-                let members: Option<Vec<serde_json::Value>> = v.iter().map(|t| t.config_json()).collect();
+                let members: Option<Vec<serde_json::Value>> =
+                    v.iter().map(|t| t.config_json()).collect();
                 members.map(|m| json!({"type": "combined", "models": m}))
             }
         }
@@ -160,14 +180,21 @@ impl Term {
     }
     pub fn constructed(&self) -> TerminationModel {
         match self {
-            Term::Unlimited => TerminationModel::IterationsLimit { limit: u64::MAX / 4 },
+            Term::Unlimited => TerminationModel::IterationsLimit {
+                limit: u64::MAX / 4,
+            },
             Term::Iterations(l) => TerminationModel::IterationsLimit { limit: *l },
             Term::Size(l) => TerminationModel::SolutionSizeLimit { limit: *l },
-            Term::RuntimeMs { limit_ms, frequency } => TerminationModel::QueryRuntimeLimit {
+            Term::RuntimeMs {
+                limit_ms,
+                frequency,
+            } => TerminationModel::QueryRuntimeLimit {
                 limit: Duration::from_millis(*limit_ms),
                 frequency: *frequency,
             },
-            Term::Combined(v) => TerminationModel::Combined { models: v.iter().map(|t| t.constructed()).collect() },
+            Term::Combined(v) => TerminationModel::Combined {
+                models: v.iter().map(|t| t.constructed()).collect(),
+            },
         }
     }
 }
@@ -194,7 +221,14 @@ pub struct World {
 }
 
 pub const TURN_CLASSES: [&str; 8] = [
-    "no_turn", "slight_right", "slight_left", "right", "left", "sharp_right", "sharp_left", "u_turn",
+    "no_turn",
+    "slight_right",
+    "slight_left",
+    "right",
+    "left",
+    "sharp_right",
+    "sharp_left",
+    "u_turn",
 ];
 
 pub fn turn_of(i: usize) -> Turn {
@@ -237,7 +271,9 @@ impl World {
     pub fn distance(net: Net) -> World {
         World {
             net,
-            trav: Trav::Distance { model_unit: DistanceUnit::Meters },
+            trav: Trav::Distance {
+                model_unit: DistanceUnit::Meters,
+            },
             feat_dist_unit: DistanceUnit::Meters,
             feat_time_unit: TimeUnit::Seconds,
             init_dist: 0.0,
@@ -260,16 +296,24 @@ impl World {
     pub fn units_consistent(&self) -> bool {
         match &self.trav {
             Trav::Distance { model_unit } => *model_unit == self.feat_dist_unit,
-            Trav::Speed { dist_unit, time_unit, .. } => {
+            Trav::Speed {
+                dist_unit,
+                time_unit,
+                ..
+            } => {
                 *dist_unit == self.feat_dist_unit
                     && *time_unit == self.feat_time_unit
-                    && self.turn.as_ref().map_or(true, |t| t.unit == self.feat_time_unit)
+                    && self
+                        .turn
+                        .as_ref()
+                        .map_or(true, |t| t.unit == self.feat_time_unit)
             }
         }
     }
     /// exact mode: pure additions in base units, so that the unit tables (good to ~2e-4 only) do not intervene
     pub fn tol(&self) -> f64 {
-        let base = self.feat_dist_unit == DistanceUnit::Meters && (!self.has_time() || self.feat_time_unit == TimeUnit::Seconds);
+        let base = self.feat_dist_unit == DistanceUnit::Meters
+            && (!self.has_time() || self.feat_time_unit == TimeUnit::Seconds);
         if self.units_consistent() && base {
             1e-8
         } else {
@@ -279,12 +323,18 @@ impl World {
     pub fn state_model(&self) -> StateModel {
         let mut feats = vec![(
             "distance".to_string(),
-            StateFeature::Distance { distance_unit: self.feat_dist_unit, initial: Distance::new(self.init_dist) },
+            StateFeature::Distance {
+                distance_unit: self.feat_dist_unit,
+                initial: Distance::new(self.init_dist),
+            },
         )];
         if self.has_time() {
             feats.push((
                 "time".to_string(),
-                StateFeature::Time { time_unit: self.feat_time_unit, initial: Time::new(self.init_time) },
+                StateFeature::Time {
+                    time_unit: self.feat_time_unit,
+                    initial: Time::new(self.init_time),
+                },
             ));
         }
         StateModel::new(feats)
@@ -292,7 +342,12 @@ impl World {
     pub fn traversal_model(&self) -> Arc<dyn TraversalModel> {
         match &self.trav {
             Trav::Distance { model_unit } => Arc::new(DistanceTraversalModel::new(*model_unit)),
-            Trav::Speed { speed_unit, dist_unit, time_unit, speeds } => {
+            Trav::Speed {
+                speed_unit,
+                dist_unit,
+                time_unit,
+                speeds,
+            } => {
                 let table: Vec<Speed> = speeds.iter().map(|s| Speed::new(*s)).collect();
                 let max = speeds.iter().cloned().fold(0.0, f64::max);
                 let engine = SpeedTraversalEngine {
@@ -317,10 +372,15 @@ impl World {
                 }
                 let engine = TurnDelayAccessModelEngine {
                     edge_headings: headings.into_boxed_slice(),
-                    turn_delay_model: TurnDelayModel::TabularDiscrete { table, time_unit: t.unit },
+                    turn_delay_model: TurnDelayModel::TabularDiscrete {
+                        table,
+                        time_unit: t.unit,
+                    },
                     time_feature_name: "time".to_string(),
                 };
-                Arc::new(TurnDelayAccessModel { engine: Arc::new(engine) })
+                Arc::new(TurnDelayAccessModel {
+                    engine: Arc::new(engine),
+                })
             }
         }
     }
@@ -338,8 +398,11 @@ impl World {
         // one table per posting of an edge: an edge listed twice is priced by two tables of the combined rate
         parts.extend(self.edge_tables());
         if !self.turn_surcharge.is_empty() {
-            let lookup: HashMap<(EdgeId, EdgeId), Cost> =
-                self.turn_surcharge.iter().map(|((a, b), c)| ((EdgeId(*a), EdgeId(*b)), Cost::new(*c))).collect();
+            let lookup: HashMap<(EdgeId, EdgeId), Cost> = self
+                .turn_surcharge
+                .iter()
+                .map(|((a, b), c)| ((EdgeId(*a), EdgeId(*b)), Cost::new(*c)))
+                .collect();
             parts.push(NetworkCostRate::EdgeEdgeLookup { lookup });
         }
         if parts.len() == 1 {
@@ -351,7 +414,11 @@ impl World {
             Arc::new(weights),
             Arc::new(rates),
             Arc::new(net_rates),
-            if self.mul { CostAggregation::Mul } else { CostAggregation::Sum },
+            if self.mul {
+                CostAggregation::Mul
+            } else {
+                CostAggregation::Sum
+            },
             sm,
         )
         .map_err(|e| e.to_string())
@@ -369,10 +436,20 @@ impl World {
             termination_model: Arc::new(self.term.real()),
         })
     }
-    fn engines(&self) -> (Option<Arc<SpeedTraversalEngine>>, Option<Arc<TurnDelayAccessModelEngine>>) {
+    fn engines(
+        &self,
+    ) -> (
+        Option<Arc<SpeedTraversalEngine>>,
+        Option<Arc<TurnDelayAccessModelEngine>>,
+    ) {
         let speed = match &self.trav {
             Trav::Distance { .. } => None,
-            Trav::Speed { speed_unit, dist_unit, time_unit, speeds } => {
+            Trav::Speed {
+                speed_unit,
+                dist_unit,
+                time_unit,
+                speeds,
+            } => {
                 let table: Vec<Speed> = speeds.iter().map(|s| Speed::new(*s)).collect();
                 let max = speeds.iter().cloned().fold(0.0, f64::max);
                 Some(Arc::new(SpeedTraversalEngine {
@@ -392,7 +469,10 @@ impl World {
             }
             Arc::new(TurnDelayAccessModelEngine {
                 edge_headings: headings.into_boxed_slice(),
-                turn_delay_model: TurnDelayModel::TabularDiscrete { table, time_unit: t.unit },
+                turn_delay_model: TurnDelayModel::TabularDiscrete {
+                    table,
+                    time_unit: t.unit,
+                },
                 time_feature_name: "time".to_string(),
             })
         });
@@ -410,7 +490,9 @@ impl World {
     ) -> SearchApp {
         let (speed, turn) = self.engines();
         let traversal_model_service: Arc<dyn TraversalModelService> = match (&self.trav, speed) {
-            (Trav::Distance { model_unit }, _) => Arc::new(DistanceTraversalService { distance_unit: *model_unit }),
+            (Trav::Distance { model_unit }, _) => Arc::new(DistanceTraversalService {
+                distance_unit: *model_unit,
+            }),
             (_, Some(e)) => Arc::new(SpeedLookupService { e }),
             _ => unreachable!(),
         };
@@ -427,7 +509,10 @@ impl World {
         }
         let configured = StateModel::new(vec![(
             "distance".to_string(),
-            StateFeature::Distance { distance_unit: self.feat_dist_unit, initial: Distance::new(self.init_dist) },
+            StateFeature::Distance {
+                distance_unit: self.feat_dist_unit,
+                initial: Distance::new(self.init_dist),
+            },
         )]);
         SearchApp {
             search_algorithm: algo,
@@ -439,7 +524,11 @@ impl World {
                 vehicle_rates: Arc::new(cfg_rates),
                 network_rates: Arc::new(net_rates),
                 weights: Arc::new(cfg_weights),
-                cost_aggregation: if cfg_mul { CostAggregation::Mul } else { CostAggregation::Sum },
+                cost_aggregation: if cfg_mul {
+                    CostAggregation::Mul
+                } else {
+                    CostAggregation::Sum
+                },
                 ignore_unknown_weights: true,
             }),
             frontier_model_service: frontier,
@@ -458,7 +547,9 @@ impl World {
         let dd = len_m / ru::distance_m(&self.feat_dist_unit);
         let dt = match &self.trav {
             Trav::Distance { .. } => 0.0,
-            Trav::Speed { speed_unit, speeds, .. } => {
+            Trav::Speed {
+                speed_unit, speeds, ..
+            } => {
                 let v = speeds[e] * ru::speed_mps(speed_unit);
                 (len_m / v) / ru::time_s(&self.feat_time_unit)
             }
@@ -487,13 +578,26 @@ impl World {
                 None => tables.push([(EdgeId(*e), Cost::new(*c))].into_iter().collect()),
             }
         }
-        tables.into_iter().map(|lookup| NetworkCostRate::EdgeLookup { lookup }).collect()
+        tables
+            .into_iter()
+            .map(|lookup| NetworkCostRate::EdgeLookup { lookup })
+            .collect()
     }
     pub fn ref_surcharge(&self, e: usize) -> f64 {
-        self.surcharge.iter().filter(|(x, _)| *x == e).map(|(_, c)| *c).sum::<f64>() * self.w_dist
+        self.surcharge
+            .iter()
+            .filter(|(x, _)| *x == e)
+            .map(|(_, c)| *c)
+            .sum::<f64>()
+            * self.w_dist
     }
     pub fn ref_turn_surcharge(&self, prev: usize, e: usize) -> f64 {
-        self.turn_surcharge.iter().filter(|(x, _)| *x == (prev, e)).map(|(_, c)| *c).sum::<f64>() * self.w_dist
+        self.turn_surcharge
+            .iter()
+            .filter(|(x, _)| *x == (prev, e))
+            .map(|(_, c)| *c)
+            .sum::<f64>()
+            * self.w_dist
     }
     /// reference cost of a state change under sum aggregation (before the floor)
     pub fn ref_vehicle_cost(&self, dd: f64, dt: f64) -> f64 {
